@@ -98,6 +98,11 @@ class UnsafeNodeError(ExpressionError):
     pass
 
 
+# Runtime errors that mean "this expression cannot be evaluated for this item"
+_EVALUATION_ERRORS = (TypeError, ValueError, AttributeError, KeyError, IndexError,
+                      ArithmeticError, StopIteration, RuntimeError, re.error)
+
+
 # =============================================================================
 # AST Validation
 # =============================================================================
@@ -722,7 +727,15 @@ class ExpressionEvaluator:
         """Evaluate an AST node and return its value."""
         method = f'_eval_{type(node).__name__}'
         if hasattr(self, method):
-            return getattr(self, method)(node)
+            try:
+                return getattr(self, method)(node)
+            except ExpressionError:
+                raise
+            except _EVALUATION_ERRORS as e:
+                # Operands of the wrong type, bad regex, empty sequence, exhausted
+                # generator, ...: report them like any other expression error so
+                # callers skip this rule/tag/view instead of aborting.
+                raise ExpressionError(f"Cannot evaluate expression: {type(e).__name__}: {e}")
         raise ExpressionError(f"Cannot evaluate node type: {type(node).__name__}")
 
     def _eval_Expression(self, node: ast.Expression) -> Any:
@@ -896,7 +909,15 @@ class TransactionEvaluator:
         """Evaluate an AST node and return its value."""
         method = f'_eval_{type(node).__name__}'
         if hasattr(self, method):
-            return getattr(self, method)(node)
+            try:
+                return getattr(self, method)(node)
+            except ExpressionError:
+                raise
+            except _EVALUATION_ERRORS as e:
+                # Operands of the wrong type, bad regex, empty sequence, exhausted
+                # generator, ...: report them like any other expression error so
+                # callers skip this rule/tag/view instead of aborting.
+                raise ExpressionError(f"Cannot evaluate expression: {type(e).__name__}: {e}")
         raise ExpressionError(f"Cannot evaluate node type: {type(node).__name__}")
 
     def _eval_Expression(self, node: ast.Expression) -> Any:
